@@ -118,4 +118,45 @@ class C03(Prop):
         return v
 
 
+    def extra(self, ctx):
+        """Enumerated part: every bounded-future operator x every interval [a,b], 0<=a<=b<=3, alone, under every
+        other future operator (reduced interval set), and next to a sibling with a different horizon."""
+        rng = ctx.rng
+        x, y = lang.V('x'), lang.V('y')
+        px, py = lang.N('geq', x, lang.C(1.0)), lang.N('leq', y, lang.C(0.5))
+        ivls = [(a, b) for a in range(4) for b in range(a, 4)]
+        base = []
+        for iv in ivls:
+            base += [lang.N('eventually', px, ivl=iv), lang.N('always', px, ivl=iv), lang.N('until', px, py, ivl=iv),
+                     lang.N('unless', px, py, ivl=iv), lang.N('eventually', x, ivl=iv)]
+        base += [lang.N('next', px), lang.N('s_next', px)]
+        forms = list(base)
+        red = [(0, 0), (1, 1), (0, 2), (1, 2)]
+        small = [g for g in base if g[1] is None or g[1] in red]
+        for g in small:
+            for iv in red:
+                forms += [lang.N('eventually', g, ivl=iv), lang.N('always', g, ivl=iv), lang.N('until', g, py, ivl=iv),
+                          lang.N('until', py, g, ivl=iv)]
+            forms += [lang.N('next', g), lang.N('not', g)]
+        if ctx.tier == 'thorough':
+            for g in small:
+                for g2 in small:
+                    forms += [lang.N('and', g, g2), lang.N('implies', g, g2)]
+        else:
+            for g in small[::3]:
+                for g2 in small[1::4]:
+                    forms.append(lang.N('and', g, g2))
+        forms = [f for i, f in enumerate(forms) if i % ctx.nshards == ctx.shard]
+        done = 0
+        for f in forms:
+            if ctx.out_of_time():
+                ctx.notes.append('future-operator enumeration stopped by the wall-clock budget after %d' % done)
+                break
+            h = lang.horizon(f)
+            for n in (h + 1, h + 4):
+                self.check(ctx, {'formula': f, 'data': lang.gen_trace(rng, lang.variables(f), n), 'online_kind': 'dt'})
+            done += 1
+        ctx.count('enumerated-future-operator-formulas', done)
+
+
 PROP = C03()
